@@ -507,6 +507,25 @@ pub fn run(ctx: &mut Ctx) {
     let n = ctx.budget(20_000, 1_000_000) / ctx.nshards;
     let mut rng = ctx.rng.fork(0xC12);
     let mut bad = 0;
+    // ---- the per-message maximum and its neighbours: 251 / 252 / 253 descriptors with ONE read,
+    // in a read that completes a request and in one that does not, both engines
+    for (k, count) in [253usize, 252, 251, 253].iter().enumerate() {
+        for real in [false, true] {
+            let mut c = gen_case(&mut rng, real, false);
+            let nseg = c.cuts.len() + 1;
+            c.fds_per_segment = vec![0; nseg];
+            let seg = if k % 2 == 0 { 0 } else { nseg - 1 };
+            c.fds_per_segment[seg] = *count;
+            if k == 3 && nseg > 1 {
+                c.fds_per_segment[nseg - 1 - seg] = 2;
+            }
+            c.fds_at_eof = 0;
+            ctx.rep.count("cases_with_the_maximum_number_of_descriptors_in_one_read");
+            if exec(ctx, &c) {
+                bad += 1;
+            }
+        }
+    }
     for i in 0..n {
         let real = i % 3 == 0;
         let big = i % 97 == 0;
